@@ -51,6 +51,7 @@ func litOf(v ssa.Value) *structLit {
 	if !ok {
 		return sl
 	}
+	best := map[string]*ssa.Store{}
 	for _, ref := range *al.Referrers() {
 		fa, ok := ref.(*ssa.FieldAddr)
 		if !ok {
@@ -58,9 +59,20 @@ func litOf(v ssa.Value) *structLit {
 		}
 		fv := fieldVar(fa)
 		for _, r2 := range *fa.Referrers() {
-			if st, ok := r2.(*ssa.Store); ok && st.Addr == ssa.Value(fa) && fv != nil {
-				sl.Fields[fv.Name()] = st.Val
+			st, ok := r2.(*ssa.Store)
+			if !ok || st.Addr != ssa.Value(fa) || fv == nil {
+				continue
 			}
+			// the value the field holds when the literal is boxed: the closest store that precedes the
+			// MakeInterface (named locals such as `m := T{…}; …; m.Data = nil` are stored to again later)
+			if !instrDominates(st, ld) {
+				continue
+			}
+			if prev, has := best[fv.Name()]; has && !instrDominates(prev, st) {
+				continue
+			}
+			best[fv.Name()] = st
+			sl.Fields[fv.Name()] = st.Val
 		}
 	}
 	return sl
